@@ -1,11 +1,58 @@
+# Hazard tags excluded by default on the unchanged tree: each names a construct class whose
+# documented semantics the compiler does not implement (reported as findings, see the tags in
+# harness/arc/c19/interp_test.go and print_test.go). Remove a tag once the defect is fixed;
+# `C19_AVOID= ./check C19` (empty) searches with nothing excluded, `C19_AVOID=a,b ./check C19`
+# with a custom set.
+_C19_AVOID = ",".join([
+    "hint-leak-literal",   # literal typed by the enclosing hint: `v := 0 < x_i64`, `i8(1 + x_i64)` -> invalid WASM
+    "pow-literal-base",    # `0.5 ^ x_f32`: base literal typed independently of the exponent -> invalid WASM
+    "cond-non-u8",         # `if x_i64 {` / `for x_f64 {` accepted -> invalid WASM
+    "narrow-wrap",         # i8/i16/u8/u16 arithmetic is not wrapped to the width
+    "cast-trunc",          # narrowing casts to i8/i16/u8/u16 do not truncate
+    "cast-sat-s2u",        # signed -> unsigned casts do not saturate
+    "cast-sat-u2s",        # unsigned -> signed casts do not saturate
+    "cast-f2i-sat",        # float -> integer casts trap instead of saturating
+    "prec-unary-pow",      # `-2 ^ 2` parsed as (-2) ^ 2
+    "cmp-chain",           # `a < b < c`: third operand silently dropped
+    "cmp-eq-rel",          # `a == b < c` parsed as a == (b < c)
+    "andor-mixed",         # `a or b and c` parsed as a or (b and c)
+])
+
 CHECKS["C19"] = dict(
     module="arc/go",
     pkg="internal/verif/c19",
     packages=[("internal/verif/c19", "harness/arc/c19")],
     level="exploration",
-    rule="wip",
-    assumptions=[],
-    technique="wip", level_text="wip", level_note="wip",
-    tests=[dict(name="TestC19", quick=dict(cases=300, shards=4), thorough=dict(cases=3000, shards=16, timeout=2400)),
-           dict(name="TestC19NoCrash", quick=dict(cases=300, shards=2), thorough=dict(cases=3000, shards=16, timeout=2400))],
+    technique=("differential property testing (rapid): typed program generator + reference interpreter written from the language "
+               "specification vs. arc.CompileText + wazero; token-mutation fuzzing of CompileText for the no-crash clause"),
+    level_text=("Generated-input search: typed Arc functions (construction, not rejection) over the ten numeric types are printed with "
+                "minimal parentheses, compiled with arc.CompileText, validated/instantiated with wazero wired to the STL host modules, and "
+                "called on boundary and generated arguments; every result is compared bit-exactly with a reference interpreter over the "
+                "generator's own AST (1 ulp only for float ^). Mutated source text must never make CompileText panic. Sampled, not exhaustive; "
+                "no absence claim."),
+    level_note=("Trusted: the reference interpreter M-ARC (harness/arc/c19/interp_test.go, written from arc/docs/spec.md and the reference pages), "
+                "wazero (validation and execution; its optimizing compiler engine as production uses it), Go's float arithmetic, rapid. "
+                "Regions the documents leave undefined are avoided and counted (evidence counters avoided-region:*, avoided-construct:*, constructed:*); "
+                "constructs hitting already reported defects are excluded by the hazard tags in C19_AVOID_DEFAULT and counted (avoided-hazard*)."),
+    rule=("rapid builds a function `func f(a T1, ...) R` (0-3 parameters, all ten numeric types) from a typed AST: literals, parameters, locals, "
+          "stateful variables, unary -/not, + - * / % ^, comparisons, and/or, casts between all numeric types (depth <= 4), local/stateful declarations, "
+          "(compound) assignment, if/else-if/else with early return, range loops (1-3 arguments), counted conditional and infinite loops with "
+          "break/continue (<= 12 statements); 3-12 argument vectors drawn from per-type boundary values (min, max, -1, 0, 1, sign and width boundaries, "
+          "NaN/inf/-0) and random ones, called in sequence on one instance. Non-trivial = an accepted program containing an integer type of <= 32 bits "
+          "or a cast, with >= 1 call on a boundary argument compared against the reference; distinct by script hash. "
+          "TestC19NoCrash: token delete/duplicate/swap/replace/insert/truncate mutations of generated programs and of the repository's .arc examples and "
+          "```arc documentation blocks; non-trivial = text that gets past the parser."),
+    assumptions=[
+        "arguments of i8/i16 parameters are passed sign-extended (as the compiler materialises literals of these types and the stateful host returns them); "
+        "C19_ARGS=zeroext passes them as arc/go/stl/wasm/node.go valueAt does (zero-extended) and exposes a separate finding",
+        "a result is read as the runtime reads it: the low bytes of the returned register at the width of the declared type",
+        "a program the parser/analyzer/compiler rejects with an error value is a discard (rate reported), a panic is a violation",
+        "compile or call time-outs (30 s / 20 s) are inconclusive (discard), never a violation",
+    ],
+    tests=[
+        dict(name="TestC19", env={"C19_AVOID_DEFAULT": _C19_AVOID},
+             quick=dict(cases=2500, shards=8, timeout=600), thorough=dict(cases=25000, shards=16, timeout=3000)),
+        dict(name="TestC19NoCrash",
+             quick=dict(cases=20000, shards=2, timeout=600), thorough=dict(cases=150000, shards=16, timeout=3000)),
+    ],
 )
